@@ -271,7 +271,10 @@ func (e *AttachExpression) EndPosition(memoryGauge common.MemoryGauge) Position 
 }
 
 func (*AttachExpression) precedence() expressionPrecedence {
-	return expressionPrecedenceLiteral
+	// The parser parses the base expression with the lowest binding power,
+	// i.e. `attach A() to b + c` is `attach A() to (b + c)`:
+	// an attach expression followed by any operator needs parentheses
+	return expressionPrecedenceTernary
 }
 
 func (e *AttachExpression) MarshalJSON() ([]byte, error) {
